@@ -91,6 +91,21 @@ func init() {
 		}})
 	register(catEntry{Name: "x-cache-of-cache", Ctors: []string{"sdf.Cache2D"},
 		Build2: func(lw *leafWrapper) sdf.SDF2 { return sdf.Cache2D(sdf.Cache2D(lw.w2(starPolygon()))) }})
+	register(catEntry{Name: "x-two-caches-one-profile", Ctors: []string{"sdf.Cache2D"},
+		Build3: func(lw *leafWrapper) sdf.SDF3 {
+			// the same profile wrapped twice: two extrusions, each with a cache of its own
+			p := lw.w2(starPolygon())
+			a := sdf.Extrude3D(sdf.Cache2D(p), 3)
+			b := sdf.Transform3D(sdf.Extrude3D(sdf.Cache2D(p), 5), sdf.Translate3d(v3.Vec{X: 0, Y: 0, Z: 5}))
+			return sdf.Union3D(a, b)
+		}})
+	register(catEntry{Name: "x-two-voxels-one-shape", Ctors: []string{"sdf.NewVoxelSDF3"},
+		Build3: func(lw *leafWrapper) sdf.SDF3 {
+			s := lw.w3(must3(sdf.Sphere3D(3)))
+			a := sdf.NewVoxelSDF3(s, 6, nil)
+			b := sdf.Transform3D(sdf.NewVoxelSDF3(s, 8, nil), sdf.Translate3d(v3.Vec{X: 4, Y: 0, Z: 0}))
+			return sdf.Union3D(a, b)
+		}})
 	register(catEntry{Name: "x-voxel-2-cells", Ctors: []string{"sdf.NewVoxelSDF3"},
 		Build3: func(lw *leafWrapper) sdf.SDF3 {
 			return sdf.NewVoxelSDF3(lw.w3(must3(sdf.Box3D(v3.Vec{X: 4, Y: 4, Z: 4}, 0.5))), 2, nil)
